@@ -1,8 +1,11 @@
 //! C05 seeds, field inventory and entry points for DBC (WDBC / WDB2 / WDB5 headers).
 //!
 //! "wdbc-writer" is produced by the library's own `DbcWriter` (from a record set obtained by
-//! parsing a hand-assembled bootstrap table with a schema); the WDB2/WDB5 variants have no writer
-//! in the crate and are assembled here from the header layouts in versions.rs.
+//! parsing a hand-assembled bootstrap table with a schema); "wdbc-mixed" likewise, with a second
+//! schema that has the narrow field types (Bool, U8, I8, U16, I16) and an array field; the
+//! WDB2/WDB5 variants have no writer in the crate and are assembled here from the header layouts
+//! in versions.rs. `run` tries both schemas on every input (with_schema only accepts the one whose
+//! field count and record size match the header).
 use crate::seed::{Aux, Seed};
 use crate::worker::{errname, Runner};
 use std::io::Cursor;
@@ -14,6 +17,8 @@ pub fn seed_names(thorough: bool) -> Vec<String> {
         v.push("wdb2-basic".into());
         v.push("wdb5".into());
         v.push("wdbc-empty".into());
+        v.push("wdb2-ext-noindex".into());
+        v.push("wdbc-mixed".into());
     }
     v
 }
@@ -26,6 +31,53 @@ fn schema() -> Schema {
     s.add_field(SchemaField::new("Flags", FieldType::Int32));
     s.set_key_field("ID");
     s
+}
+
+/// Second schema: 24-byte records, 10 header fields (array elements count one by one).
+fn schema_mixed() -> Schema {
+    let mut s = Schema::new("Mixed");
+    s.add_field(SchemaField::new("ID", FieldType::UInt32));
+    s.add_field(SchemaField::new("Name", FieldType::String));
+    s.add_field(SchemaField::new("Enabled", FieldType::Bool));
+    s.add_field(SchemaField::new("Level", FieldType::UInt8));
+    s.add_field(SchemaField::new("Delta", FieldType::Int8));
+    s.add_field(SchemaField::new("Mask", FieldType::UInt16));
+    s.add_field(SchemaField::new("Bias", FieldType::Int16));
+    s.add_field(SchemaField::new_array("Slots", FieldType::UInt16, 3));
+    s.set_key_field("ID");
+    s
+}
+
+const MIXED_RECORD: usize = 24;
+
+fn bootstrap_mixed(n: u32) -> Vec<u8> {
+    let mut strings = vec![0u8];
+    let mut recs = Vec::new();
+    for i in 0..n {
+        let off = strings.len() as u32;
+        // (long names: the schema-less record reader takes field_count * 4 bytes per record whatever the record
+        // size says, here 40 instead of 24, and must still find that much data in the file)
+        strings.extend_from_slice(format!("Interface\\Icons\\Mixed_{:04}.blp", i * 3).as_bytes());
+        strings.push(0);
+        recs.extend_from_slice(&(100 + i).to_le_bytes());
+        recs.extend_from_slice(&off.to_le_bytes());
+        recs.extend_from_slice(&(i % 2).to_le_bytes());
+        recs.push(200u8.wrapping_add(i as u8));
+        recs.push((-(i as i8) - 1) as u8);
+        recs.extend_from_slice(&(0x8000u16 + i as u16).to_le_bytes());
+        recs.extend_from_slice(&(-300i16 - i as i16).to_le_bytes());
+        for k in 0..3u16 {
+            recs.extend_from_slice(&(i as u16 * 10 + k).to_le_bytes());
+        }
+    }
+    let mut d = Vec::new();
+    d.extend_from_slice(b"WDBC");
+    for v in [n, 10, MIXED_RECORD as u32, strings.len() as u32] {
+        d.extend_from_slice(&v.to_le_bytes());
+    }
+    d.extend_from_slice(&recs);
+    d.extend_from_slice(&strings);
+    d
 }
 
 fn records(n: u32) -> (Vec<u8>, Vec<u8>) {
@@ -56,15 +108,20 @@ fn bootstrap_wdbc(n: u32) -> Vec<u8> {
 }
 
 fn common_fields(s: &mut Seed, hdr: usize, n: u32) {
-    s.field_ex(4, 4, "count", "hdr.record_count", hdr, 16, None);
+    common_fields_sized(s, hdr, n, 16)
+}
+
+/// `rsz`: record size; the string reference is the second dword of every record
+fn common_fields_sized(s: &mut Seed, hdr: usize, n: u32, rsz: usize) {
+    s.field_ex(4, 4, "count", "hdr.record_count", hdr, rsz, None);
     s.field_ex(8, 4, "esize", "hdr.field_count", hdr, 4, None);
     s.field_ex(12, 4, "esize", "hdr.record_size", hdr, n.max(1) as usize, None);
-    let sb = hdr + 16 * n as usize;
+    let sb = hdr + rsz * n as usize;
     s.field_ex(16, 4, "bsize", "hdr.string_block_size", sb, 1, None);
     // string offsets inside the records and the terminators inside the string block
     for i in 0..n as usize {
         if i < 2 || i + 1 == n as usize {
-            s.field_ex(hdr + 16 * i + 4, 4, "stroff", format!("rec[{i}].name"), sb, 1, None);
+            s.field_ex(hdr + rsz * i + 4, 4, "stroff", format!("rec[{i}].name"), sb, 1, None);
         }
     }
     let len = s.bytes.len();
@@ -87,10 +144,23 @@ pub fn build(name: &str) -> Seed {
             common_fields(&mut s, 20, n);
             s
         }
-        "wdb2-basic" | "wdb2-ext" => {
+        "wdbc-mixed" => {
+            let n = 4u32;
+            let boot = bootstrap_mixed(n);
+            let p = DbcParser::parse_bytes(&boot).expect("bootstrap parses").with_schema(schema_mixed()).expect("mixed schema fits");
+            let rs = p.parse_records().expect("bootstrap records");
+            let mut out = Cursor::new(Vec::new());
+            DbcWriter::new(&mut out).with_schema(schema_mixed()).write_records(&rs).expect("DbcWriter");
+            let mut s = Seed::new("dbc", name, out.into_inner());
+            common_fields_sized(&mut s, 20, n, MIXED_RECORD);
+            s
+        }
+        "wdb2-basic" | "wdb2-ext" | "wdb2-ext-noindex" => {
             let n = 4u32;
             let (recs, strings) = records(n);
-            let ext = name == "wdb2-ext";
+            let ext = name != "wdb2-basic";
+            // max_index <= 0: the extended header is not followed by index / string-length arrays
+            let noindex = name == "wdb2-ext-noindex";
             let mut d = Vec::new();
             d.extend_from_slice(b"WDB2");
             let build: u32 = if ext { 15595 } else { 12340 };
@@ -105,14 +175,16 @@ pub fn build(name: &str) -> Seed {
             let mut hdr = 28;
             if ext {
                 // min_index, max_index, locale, copy_table_size, then (max-min+1) * (4 + 2) bytes
-                for v in [1i32, 4, 0, 0] {
+                for v in [if noindex { 0i32 } else { 1 }, if noindex { 0 } else { 4 }, 0, 0] {
                     d.extend_from_slice(&v.to_le_bytes());
                 }
-                for i in 0..4u32 {
-                    d.extend_from_slice(&i.to_le_bytes());
-                }
-                for _ in 0..4 {
-                    d.extend_from_slice(&5u16.to_le_bytes());
+                if !noindex {
+                    for i in 0..4u32 {
+                        d.extend_from_slice(&i.to_le_bytes());
+                    }
+                    for _ in 0..4 {
+                        d.extend_from_slice(&5u16.to_le_bytes());
+                    }
                 }
                 hdr = d.len();
             }
@@ -161,6 +233,11 @@ pub fn run(r: &mut Runner, bytes: &[u8], _aux: &Aux) {
         r.call("DbcParser::parse_records", || p.parse_records().map(|_| ()).map_err(errname));
         // the same entry point with a schema attached (with_schema validates field_count/record_size)
         if let Ok(ps) = p.with_schema(schema()) {
+            r.call("DbcParser::parse_records", || ps.parse_records().map(|_| ()).map_err(errname));
+        }
+        // ... and with the schema of narrow types and an array field (with_schema consumes the parser: the
+        // bytes are parsed once more, which has just succeeded above)
+        if let Some(ps) = DbcParser::parse_bytes(bytes).ok().and_then(|q| q.with_schema(schema_mixed()).ok()) {
             r.call("DbcParser::parse_records", || ps.parse_records().map(|_| ()).map_err(errname));
         }
     }
